@@ -8,25 +8,39 @@ from extract import pyexpr
 ID = "C11"
 SRC_POLY = "mlinsights/mlmodel/_extended_features_polynomial.py"
 SRC_EXT = "mlinsights/mlmodel/extended_features.py"
-LEAN_TARGETS = ["MlVerif.Gen.C11", "MlVerif.Model.Poly", "MlVerif.Lemmas.Poly", "MlVerif.Lemmas.PolyGen",
-                "MlVerif.Lemmas.PolyLoops", "MlVerif.Lemmas.PolyNames", "MlVerif.Lemmas.PolyCount",
-                "MlVerif.Properties.C11"]
+LEAN_TARGETS = ["MlVerif.Gen.C11", "MlVerif.Model.Poly", "MlVerif.Model.Itertools", "MlVerif.Lemmas.Poly",
+                "MlVerif.Lemmas.PolyGen", "MlVerif.Lemmas.PolyLoops", "MlVerif.Lemmas.PolyNames",
+                "MlVerif.Lemmas.PolyCount", "MlVerif.Lemmas.Itertools", "MlVerif.Properties.C11"]
 PROPERTY_FILE = "MlVerif/Properties/C11.lean"
 DRIVER = "Drivers/C11.lean"
 TRUSTED = [
     "numpy basic slicing XP[:, a:b] (views, clipping), numpy.multiply(A, B, out=C) row-wise with width check, "
-    "X[:, comb].prod(1); itertools.combinations / combinations_with_replacement enumerate in lexicographic order "
-    "(transcribed as `combs`, validated on every run against PolynomialFeatures.powers_ and ._combinations)",
-    "scikit-learn PolynomialFeatures is the reference: the Lean spec `polySpec` is compared with it on every run, "
-    "it is not itself verified",
+    "X[:, comb].prod(1)",
+    "itertools: CPython's C implementations of combinations / combinations_with_replacement are assumed to behave "
+    "as the 'roughly equivalent' reference algorithms of the Python documentation. Those two algorithms (index "
+    "list advanced in place inside `while True:`, the early returns for r > n and for an empty pool) are "
+    "transcribed statement by statement in Model/Itertools.lean and PROVED to yield the lexicographic lists of "
+    "the specification for every pool and r; the transcription is validated on every run against the real "
+    "itertools (identity, shifted, repeated-value and random pools, r up to beyond n)",
+    "scikit-learn: PolynomialFeatures._combinations (10 lines: comb selection, start = max(1, min_degree), "
+    "chain.from_iterable over range(start, max_degree + 1), bias prepended) and the two assignments of fit "
+    "(_min_degree = 0, _max_degree = degree) are transcribed by hand in Model/Itertools.lean - not regenerated "
+    "from scikit-learn's source - and `spec_is_sklearn_combinations` proves the transcription equal to `polySpec` "
+    "for all n, degree, flags; the transcription is compared on every run with the real static method "
+    "(also with min_degree > 0) and with the public powers_. That transform() multiplies exactly the columns "
+    "_combinations enumerates is scikit-learn's own code path (dense, non-CSR), exercised by the search, not modelled",
     "feature names are modelled as lists of whitespace-free tokens: str.split() undoes ' '.join for such tokens; "
     "Python `sorted` on str is code-point lexicographic order (Lean String order)",
     "real numbers stand in for floats: `column_is_product` is over any commutative monoid, so it says nothing "
     "about rounding; the numeric comparison uses integer / dyadic matrices on which float products are exact",
 ]
 ASSUMPTIONS = [
-    "degree = 0 with include_bias = False is excluded from the comparison with scikit-learn: PolynomialFeatures "
-    "refuses that configuration (ValueError); the theorems still cover it (zero columns written)",
+    "degree = 0 with include_bias = False: PolynomialFeatures.fit refuses that configuration (ValueError), so it "
+    "is excluded from the comparisons that need a fitted PolynomialFeatures (powers_, transform); the static "
+    "_combinations accepts it and is compared there too (it yields nothing); the theorems cover it (zero columns "
+    "on both sides, `sklearn_rejected_configuration_is_empty`)",
+    "degree is a non-negative integer (the only form ExtendedFeatures has); scikit-learn's degree=(min, max) form "
+    "is covered by `sklearn_combinations_min_max` but has no counterpart in ExtendedFeatures",
     "n_features = 0 is rejected by check_array in both libraries; the theorems cover n = 0, the end-to-end "
     "comparison starts at n = 1 (the recurrences themselves are driven with n = 0 too)",
     "'names each column by the monomial it contains' is read as: the name parses to the multiset of variables of "
@@ -40,18 +54,27 @@ ASSUMPTIONS = [
 RULE = ("one case per (n, degree, interaction_only, include_bias) and operation: the real _transform_iall / "
         "_transform_ionly driven with an object array of monomial tuples and a symbolic multiply vs the model's "
         "column list; _combinations_poly vs the model; the raw and processed feature names vs the model; one "
-        "integer row through ExtendedFeatures.transform vs the model over Int; Lean polySpec vs "
-        "PolynomialFeatures.powers_/_combinations. Non-trivial = n >= 2 and degree >= 2 (the block recurrence "
+        "integer row through ExtendedFeatures.transform vs the model over Int; Lean polySpec and the Lean "
+        "transcription of sklearn's _combinations (over the transcribed itertools algorithms) vs the real "
+        "PolynomialFeatures._combinations / powers_ (also with min_degree > 0); the transcribed "
+        "itertools.combinations / combinations_with_replacement vs the real ones for every pool size 0..nmax and "
+        "r = 0..dmax+1 on four pools. Non-trivial = n >= 2 and degree >= 2 (the block recurrence "
         "runs at least one multiply step); distinct = distinct (op, configuration)")
 LEVEL_TEXT = ("Machine-checked for every n, degree, interaction_only, include_bias: both block recurrences "
               "(including the early break and the shrinking index list) write exactly the specification's "
               "monomials in order without any index/shape error, every column is the product of its monomial's "
               "input columns over any commutative monoid (hence for every real matrix), poly-slow enumerates the "
-              "same list, names and n_output_features_ agree with the columns. The specification's equality with "
-              "scikit-learn's PolynomialFeatures is validated by comparison, not proved.")
+              "same list, names and n_output_features_ agree with the columns. Also machine-checked for every n, "
+              "degree and flags: the specification is exactly what scikit-learn's PolynomialFeatures._combinations "
+              "yields when itertools.combinations / combinations_with_replacement are the reference algorithms of "
+              "the Python documentation (no IndexError, termination within the fuel, lexicographic order), hence "
+              "the recurrences write scikit-learn's columns in scikit-learn's order. Partial: those reference "
+              "algorithms and the 10-line _combinations are hand transcriptions, validated on every run against "
+              "the real itertools and the real static method rather than derived from their sources.")
 LEVEL_NOTE = "; ".join(TRUSTED)
-TECHNIQUE = ("Lean 4 proof (induction over variables and degrees with a block invariant on the index list) + "
-             "AST-regenerated index expressions + differential correspondence with a symbolic multiply callback")
+TECHNIQUE = ("Lean 4 proof (induction over variables and degrees with a block invariant on the index list; "
+             "successor-linked-list argument for the itertools index algorithms) + AST-regenerated index expressions "
+             "+ differential correspondence with a symbolic multiply callback and with the real itertools")
 
 
 # ------------------------------------------------------------------------------ extractor
@@ -514,10 +537,27 @@ def correspond(ctx):
         # _combinations_poly
         slow = fmt_monos(P._combinations_poly(n, degree, io, bias))
         add("slow %d %d %s %s" % (n, degree, b(io), b(bias)), "combinations_poly", cfg, slow, nt)
+        # the Lean transcription of sklearn's _combinations (over the transcribed itertools algorithms) vs the
+        # REAL static method (itertools in C), for every configuration incl. n = 0 and the one fit() refuses
+        if hasattr(PolynomialFeatures, "_combinations"):
+            real = list(PolynomialFeatures._combinations(n, 0, degree, io, bias))
+            add("sklearn %d %d %s %s" % (n, degree, b(io), b(bias)), "sklearn-transcription-vs-real._combinations",
+                cfg, fmt_monos(real), nt, cfg == (3, 3, True, True))
+            corr.hit("sklearn._combinations:empty" if not real else "sklearn._combinations:nonempty")
+            if degree >= 1:
+                lo = 1 + (n + degree) % degree        # some min_degree in 1..degree
+                real = list(PolynomialFeatures._combinations(n, lo, degree, io, bias))
+                add("sklearnmm %d %d %d %s %s" % (n, lo, degree, b(io), b(bias)),
+                    "sklearn-transcription-vs-real._combinations[min_degree]", cfg + (lo,), fmt_monos(real),
+                    nt and lo >= 2)
+        else:
+            corr.hit("sklearn._combinations:missing")
         # scikit-learn vs the Lean specification
         if n >= 1 and not (degree == 0 and not bias):
             sk = sk_monomials(n, degree, io, bias)
             add("spec %d %d %s %s" % (n, degree, b(io), b(bias)), "spec-vs-sklearn.powers_", cfg, fmt_monos(sk), nt)
+            add("sklearn %d %d %s %s" % (n, degree, b(io), b(bias)), "sklearn-transcription-vs-sklearn.powers_", cfg,
+                fmt_monos(sk), nt)
             if hasattr(PolynomialFeatures, "_combinations"):
                 sk2 = list(PolynomialFeatures._combinations(n, 0, degree, io, bias))
                 add("spec %d %d %s %s" % (n, degree, b(io), b(bias)), "spec-vs-sklearn._combinations", cfg,
@@ -542,6 +582,23 @@ def correspond(ctx):
                     impl = "raises:" + type(e).__name__
                 add("vals %d %d %s %s %s" % (n, degree, b(io), b(bias), ",".join(map(str, row))),
                     "transform[%s]" % kind, cfg + (tuple(row),), impl, nt)
+    # the transcribed itertools reference algorithms vs the real itertools, on explicit pools: identity
+    # (range(n), what sklearn passes), shifted, with repeated values (itertools works by position), random
+    for n in range(0, nmax + 1):
+        pools = [("range", list(range(n))), ("shifted", [3 * i + 1 for i in range(n)]),
+                 ("repeats", [i // 2 for i in range(n)]), ("random", [rng.randint(0, 99) for _ in range(n)])]
+        for r in range(0, dmax + 2):
+            for pname, pool in pools:
+                if n == 0 and pname != "range":
+                    continue
+                txt = ",".join(map(str, pool)) if pool else "-"
+                for op, fn in (("itcomb", itertools.combinations), ("itcwr", itertools.combinations_with_replacement)):
+                    real = list(fn(pool, r))
+                    add("%s %s %d" % (op, txt, r), "itertools-transcription:" + op, (pname, n, r, tuple(pool)),
+                        fmt_monos(real), n >= 2 and r >= 2 and len(real) >= 2,
+                        (op, pname, n, r) in (("itcomb", "shifted", 4, 2), ("itcwr", "repeats", 3, 2)))
+                    corr.hit("%s:%s" % (op, "r>n" if r > n else "n=0" if n == 0 else "r=0" if r == 0 else
+                                        "one-tuple" if len(real) == 1 else "many"))
     out = run_driver(DRIVER, lines)
     for (op, inp, impl), got in zip(expect, out):
         if got != impl:
